@@ -28,7 +28,7 @@ VARIABLES objs,    \* [Handles -> [live, u, params]]
 avars == <<objs, actor, hist>>
 
 Dead == [live |-> FALSE, u |-> EmptyUrl, params |-> <<>>]
-ListOf(u) == IF u.query = None THEN <<>> ELSE ParseQ(Get(u.query))
+ListOf(u) == IF u.query = None THEN <<>> ELSE ParseQO(POpts, Get(u.query))
 Obj(u) == [live |-> TRUE, u |-> u, params |-> ListOf(u)]
 Live == {h \in Handles : objs[h].live}
 
